@@ -253,3 +253,25 @@ func H11_connack_first() {
 	}
 	vrtReach("C11.connack_first")
 }
+
+// H11_reconnect_accepted: a well-formed, acceptable CONNECT is answered with return code 0 whatever the
+// session store holds under its client identifier from EARLIER connections: a persistent session left
+// behind, a clean one, ended by DISCONNECT or dropped; clean flag of the new CONNECT symbolic; up to
+// three connections in a row (round-7 change C11-13: a stored session made every later CleanSession=1
+// CONNECT of that identifier end in a silent close).
+func H11_reconnect_accepted() {
+	b := vrtBroker("mockSuccess")
+	n := 2 + vrtChoice("connections", 2)
+	stored := false
+	for i := 0; i < n; i++ {
+		clean := vrtBool("clean")
+		c, ack := b.connect(vrtConnectPkt([]byte("x"), clean))
+		vrtAssert("C11.accept_connack", vrtIsConnack(ack, !clean && stored, 0))
+		vrtAssert("C11.accepted_connection_stays_open", !c.isClosed())
+		pong := vrtExchange(c, &specPkt{Typ: specPINGREQ})
+		vrtAssert("C11.accepted_connection_works", vrtBytesEq(pong, []byte{0xd0, 0}))
+		vrtEnd(c, vrtChoice("end", 2))
+		stored = !clean
+	}
+	vrtReach("C11.reconnect_accepted")
+}
